@@ -15,8 +15,8 @@ CORE = {
 }
 GAPS = {
  'C01': "",
- 'C02': "clauses resting on the correspondence only (no theorem yet): 'uncaught failure becomes the task's own failure and value()'s exception' follows from C01_agree (property C01), 'tasks that do not depend on the failed future are unaffected' (C02_unaffected, in progress)",
- 'C03': "clauses resting on the correspondence only (no theorem yet): start order of tasks yielded together, never-awaited tasks never start (C03_lazy_start, in progress), TERMINATION of every finite acyclic computation and the depth beyond the interpreter's recursion limit (needs the acyclicity invariant; checked by watchdog + chains of 50 000 tasks on the real code)",
+ 'C02': "clauses resting on the correspondence only (no theorem yet): 'uncaught failure becomes the task's own failure and value()'s exception' follows from C01_agree (property C01), (tasks not depending on a failed future are unaffected: proved as C02_unaffected / C02_unaffected_transitive / C02_error_chain)",
+ 'C03': "clauses resting on the correspondence only (no theorem yet): start order of tasks yielded together, TERMINATION of every finite acyclic computation and the depth beyond the interpreter's recursion limit (needs the acyclicity invariant; checked by watchdog + chains of 50 000 tasks on the real code)",
  'C04': "C04_settled_at_flush is proved for trees AND DAGs of yield-only, well-scoped programs without NonAsyncContext while the MAX_TASK_STACK_SIZE guard has not fired (acyclicity of the await graph is proved from scoping by a post-order on creation paths); clause resting on the correspondence only: 'a single-kind computation performs exactly as many flushes as its longest chain of dependent requests' (Seq.roundsTop compared with the flush count of the real scheduler on trees, chains and staggered families); the link between the state-level Settled and the trace observer Spec.Watch.settled is by construction of the observer, not a theorem",
  'C05': "every clause of the statement has a theorem (what the awaiting task receives is C02_received_trace)",
  'C06': "clauses resting on the correspondence only (no theorem yet): 'paused whenever a task it is not awaiting runs / whenever a batch is flushed while suspended' (the awaiting-chain characterisation of which contexts are active); proved: flag invariants, strict alternation per context, exit implies paused, NonAsyncContext failure on suspension",
